@@ -222,8 +222,8 @@ class FullCompiler(Compiler):
                 odku.append((ci, self.expr(e, osc).fn, t.cols[ci].name))
             odku_with_src = with_src
         ignore = bool(node.ignore)
-        if ignore:
-            raise Unsupported('INSERT IGNORE')
+        if ignore and node.odku is not None:
+            raise Unsupported('INSERT IGNORE ... ON DUPLICATE KEY UPDATE')
         ncols = t.ncols
         coltypes = t.coltypes
         cols = t.cols
@@ -245,11 +245,15 @@ class FullCompiler(Compiler):
                 eng.run_trigger(trg, sess, None, row)
             for c in cols:
                 if row[c.idx] is None and not c.nullable:
+                    if ignore:      # MySQL would store the implicit default and warn: not needed by any statement of the code base
+                        raise Unsupported('INSERT IGNORE storing NULL into a NOT NULL column')
                     if c.idx in provided or c.has_default:
                         raise not_null_error(c.name)
                     raise MySQLError(ER_NO_DEFAULT, f"Field '{c.name}' doesn't have a default value", 'HY000')
             conflict = t.find_conflict(row)
             if conflict is not None:
+                if ignore:
+                    return 0        # INSERT IGNORE: a row that duplicates a unique key is skipped (a warning, not an error)
                 if odku is None:
                     raise dup_entry('-'.join(str(x) for x in conflict[1]), f'{tname}.{conflict[0]}')
                 existing = conflict[2]
@@ -265,7 +269,15 @@ class FullCompiler(Compiler):
                     new[ci] = coerce(coltypes[ci], v, f"column '{cname}'") if v is not None else None
                 changed = eng.apply_update(sess, t, existing, new, after_if_unchanged=False)
                 return 2 if changed else 0
-            eng.check_fks(t, row, None)
+            if ignore:
+                try:
+                    eng.check_fks(t, row, None)
+                except MySQLError as e:
+                    if e.code == 1452:
+                        return 0    # INSERT IGNORE: a row failing a foreign key is skipped
+                    raise
+            else:
+                eng.check_fks(t, row, None)
             t.raw_insert(row)
             sess.undo.log_insert(t, row)
             if a is not None:
